@@ -1,0 +1,26 @@
+//go:build verif
+
+package lib
+
+// Verification hooks (build tag "verif"). The harness installs the handlers;
+// without handlers every hook is a no-op.
+
+// VerifHandler is called at every yield point with the object concerned
+// (a process, a queue, ...) and a label naming the program point.
+var VerifHandler func(obj any, label string)
+
+// VerifDoneHandler is called when a goroutine that was announced at a
+// "...:go" yield point finishes.
+var VerifDoneHandler func()
+
+func VerifPoint(obj any, label string) {
+	if h := VerifHandler; h != nil {
+		h(obj, label)
+	}
+}
+
+func VerifDone() {
+	if h := VerifDoneHandler; h != nil {
+		h()
+	}
+}
